@@ -163,10 +163,10 @@ Fixpoint script_run (s : st) (i : ist) (l : list sop) : list (out * obs) :=
     honest initiator knowing that passcode does, unmodified, within one window
     instance. *)
 Record mon := mkMon {
-  m_pw : option N;                  (* passcode of the window the implementation has open *)
+  m_pw : option verifier;           (* verifier of the window the implementation has open *)
   m_inst : N;                       (* counts the window instances seen *)
-  m_req_ok : list (N * N);          (* label -> instance in which an unmodified request was answered *)
-  m_p1_ok : list (N * N);           (* label -> instance in which an honest, unmodified Pake1 was answered *)
+  m_req_ok : list (N * N);          (* labels whose unmodified request was answered *)
+  m_p1_ok : list (N * verifier);    (* label -> verifier of the window open when its honest, unmodified Pake1 was answered *)
   m_pending : list (N * bool);      (* label -> the final status of its handshake (success?) awaits its ack *)
   m_stage : list (N * N)            (* label -> 1: its request was answered, 2: its Pake1 was answered *)
 }.
@@ -222,7 +222,8 @@ Definition mon_step (m : mon) (o : sop) (r : out) (p c : obs) : mon * list viol 
   let closed_now := match o_win p, o_win c with Some _, None => true | _, _ => false end in
   let opened_now := match o_win p, o_win c with None, Some _ => true | _, _ => false end in
   let pw' := match o with
-             | SOpen _ pw _ _ _ _ => if opened_now then Some pw else m_pw m
+             | SOpen basic pw salt saltlen iters _ =>
+                 if opened_now then Some (mkVf pw salt saltlen (if basic then BASIC_ITERS else iters)) else m_pw m
              | _ => if closed_now then None else m_pw m
              end in
   let inst' := if opened_now || closed_now then m_inst m + 1 else m_inst m in
@@ -237,8 +238,11 @@ Definition mon_step (m : mon) (o : sop) (r : out) (p c : obs) : mon * list viol 
         | SP3 e ca same =>
             let honest :=
               match ca with CcOwn => same | _ => false end &&
-              opt_eqb (a_get e (m_req_ok m)) (Some (m_inst m)) &&
-              opt_eqb (a_get e (m_p1_ok m)) (Some (m_inst m)) in
+              (match a_get e (m_req_ok m) with Some _ => true | None => false end) &&
+              (match a_get e (m_p1_ok m), m_pw m with
+               | Some v, Some cur => vf_eqb v cur
+               | _, _ => false
+               end) in
             (match o_win p with
              | Some (_, false) => []
              | _ => [VSessionWithoutWindow]
@@ -355,7 +359,10 @@ Definition mon_step (m : mon) (o : sop) (r : out) (p c : obs) : mon * list viol 
         let l := a_del e (m_p1_ok m) in
         match r, pt with
         | OPake2 _, PcOwn =>
-            if (rview =? 0) && opt_eqb (m_pw m) (Some pw) then (e, inst') :: l else l
+            match m_pw m with
+            | Some cur => if (rview =? 0) && (vf_pw cur =? pw) then (e, cur) :: l else l
+            | None => l
+            end
         | _, _ => l
         end
     | _ => m_p1_ok m
